@@ -116,6 +116,10 @@ pub fn structured(rng: &mut Rng, len: usize, alpha: &[u8]) -> Vec<u8> {
 }
 
 pub fn needle_len(rng: &mut Rng, max: usize) -> usize {
+    // now and then a really long needle (kilobytes), where the caller allows it
+    if max >= 1024 && rng.chance(1, 24) {
+        return rng.range(1024, max);
+    }
     let l = match rng.below(20) {
         0 => 0,
         1..=2 => 1,
@@ -389,7 +393,29 @@ pub fn run_grammar(rng: &mut Rng, m: usize) -> Vec<u8> {
 
 fn cost_pair_inner(rng: &mut Rng, n: usize, m: usize) -> (Vec<u8>, Vec<u8>, &'static str) {
     let m = m.max(1).min(n.max(1));
-    match rng.below(18) {
+    match rng.below(20) {
+        18 | 19 => {
+            // candidates at least 8 bytes apart (the prefilter stays switched
+            // on), each sharing a long prefix with the needle, none matching:
+            // (u)^k + breaking tail, searched in (u)^r, |u| in 8..=64
+            let p = rng.range(8, 64).min(m.max(8));
+            let mut u = vec![b'a'; p];
+            u[p - 1] = b'b';
+            if p > 3 && rng.chance(1, 2) {
+                u[p / 2] = b'c';
+            }
+            let mut needle: Vec<u8> = (0..m).map(|i| u[i % p]).collect();
+            let l = needle.len();
+            if l >= 2 {
+                // break the period at the very end so that it never matches
+                needle[l - 1] = if needle[l - 1] == b'a' { b'b' } else { b'a' };
+                if rng.chance(1, 2) {
+                    needle[l - 2] = b'a';
+                }
+            }
+            let hay: Vec<u8> = (0..n).map(|i| u[i % p]).collect();
+            (needle, hay, "long-period periodic, candidates >= 8 apart, never matching")
+        }
         14 | 15 => {
             // run-length grammar needles (construction cost), ordinary haystack
             let needle = run_grammar(rng, m);
